@@ -178,6 +178,10 @@ def _judge(args):
     fault_kinds = ["exc"]
     if kind == "fault" and ("C06" in want or "C04" in want):
         fault_kinds = ["exc", "typeerr"]
+        if "C06" in want:
+            # exception classes the library raises or catches itself somewhere (ValueError, KeyError): the user's own
+            # instance is not to be mistaken for them.  Aggregations get both, iterator tools alternate.
+            fault_kinds += ["valueerr", "lookuperr"] if is_agg else [("valueerr", "lookuperr")[len(case["log"]) % 2]]
         if is_agg and case["log"][-1]["ev"] == "call" and "C06" in want:
             # a callable of an aggregation may fail with the very exception that ends an iteration: not the
             # end of the input (aggregations are no generators, nothing converts it on the way out)
